@@ -90,6 +90,32 @@ type C08Thin struct {
 	G    C08GC
 }
 
+// the plainest recursive shapes: every level is one recursive step of the same kind
+type C08Link struct {
+	V    int
+	Next *C08Link
+}
+type C08Tree struct {
+	Kids []C08Tree
+	Tag  string
+}
+
+func c08LinkChain(depth int) *C08Link {
+	var n *C08Link
+	for i := 0; i < depth; i++ {
+		n = &C08Link{V: i, Next: n}
+	}
+	return n
+}
+
+func c08TreeChain(depth int) C08Tree {
+	t := C08Tree{Tag: "leaf"}
+	for i := 0; i < depth; i++ {
+		t = C08Tree{Kids: []C08Tree{t}, Tag: "t" + strconv.Itoa(i%10)}
+	}
+	return t
+}
+
 func c08ThinChain(depth int) *C08Thin {
 	var n *C08Thin
 	for i := 0; i < depth; i++ {
@@ -339,7 +365,7 @@ func runC08Child(o *Out) {
 			}
 		}
 	}
-	depths := []int{0, 1, 2, 3, 4, 5, 8, 13, 50, 200, 999, 1000, 1001, 2000}
+	depths := []int{0, 1, 2, 3, 4, 5, 8, 13, 50, 200, 998, 999, 1000, 1001, 1002, 1003, 2000}
 	if o.tier == "thorough" {
 		for d := 6; d < 60; d++ {
 			depths = append(depths, d)
@@ -349,6 +375,9 @@ func runC08Child(o *Out) {
 		th := c08ThinChain(d)
 		run(fmt.Sprintf("thin chain depth %d", d), th, false)
 		run(fmt.Sprintf("thin chain depth %d in interface", d), C08Wrap{1, th, "after"}, false)
+		run(fmt.Sprintf("link chain depth %d", d), c08LinkChain(d), false)
+		run(fmt.Sprintf("link chain depth %d twice in a slice", d), []*C08Link{c08LinkChain(d), c08LinkChain(d / 2)}, false)
+		run(fmt.Sprintf("tree chain depth %d", d), c08TreeChain(d), false)
 		runtime.GC()
 		if d > 200 {
 			continue // the fat shapes below produce text quadratic in the depth times their width
